@@ -26,9 +26,10 @@ def check(cx):
         'R14.1 "always an answer": every panic-capable site of match_wildcard / starts_single_wilcards / normalize_sourcemask / ChannelModes::banned is discharged (subtractions guarded, str slices at proven in-bounds character boundaries)',
         'R14.2 termination: every loop of the matcher re-assigns its controlling variable to a proper suffix / increments a bounded counter on every path',
         'R14.3 list masks are normalised before store, announce and compare; normalize_sourcemask yields mask@*, nick!*@host, mask!*@* in its three cases',
+        'R14.5 comparison unit: the matcher walks characters - a byte-wise walk is accepted only together with a UTF-8 boundary computation - so that "?" cannot consume part of a character',
         'R14.4 caller roles: every match_wildcard call has a mask (list element, configured mask, WHO/WHOIS pattern) first and a text (source, nick, realname) second; masks are never compared with ==',
     ]
-    ck.does_not_decide += ['that match_wildcard computes glob matching for every (mask, text) pair (e.g. that ? consumes one character, not one byte)',
+    ck.does_not_decide += ['that match_wildcard computes glob matching for every (mask, text) pair (beyond R14.5: the unit a ? consumes is a character)',
                            'case sensitivity beyond "no case-folding call appears"']
     prog = cx.prog
     D = Discharger(cx, prog)
@@ -64,6 +65,39 @@ def check(cx):
         if not ok:
             r2.violation('match_wildcard|no-progress|%s' % ','.join(sorted(n for n, _ in cond_vars)), 'a loop of the matcher controlled by %s '
                          'does not provably make progress on every path: %s' % (','.join(sorted(n for n, _ in cond_vars)), why), loc=prog.loc(lp))
+
+    # ---------------------------------------------------------------- R14.5 comparison unit
+    r5 = cx.rule('R14.5', 'the matcher compares characters, not bytes', floor=2, kind='type')
+    BYTE_VIEWS = ('as_bytes', 'bytes', 'as_ptr', 'as_bytes_mut', 'into_bytes')
+    BOUNDARY_APIS = ('is_char_boundary', 'chars', 'char_indices', 'len_utf8', 'from_utf8', 'floor_char_boundary', 'ceil_char_boundary')
+    for name in ('match_wildcard', 'starts_single_wilcards'):
+        fn = cx.fn(name)
+        body = prog.bodies[fn]
+        byte_views, boundary, byte_lits = [], [], []
+        harmless = set()
+        for n in ir.walk(body['body']):
+            # a byte view that is only measured (len / is_empty) does not make bytes the comparison unit
+            if n.get('k') in ('Call', 'MethodCall') and (ir.callee(n) or '').split('::')[-1] in ('len', 'is_empty') and n.get('args'):
+                a0 = ir.strip(n['args'][0])
+                if a0.get('k') in ('Call', 'MethodCall') and (ir.callee(a0) or '').split('::')[-1] in BYTE_VIEWS:
+                    harmless.add(id(a0))
+        for n in ir.walk(body['body']):
+            if n.get('k') in ('Call', 'MethodCall'):
+                c = (ir.callee(n) or '').split('::')[-1]
+                if c in BYTE_VIEWS and id(n) not in harmless:
+                    byte_views.append(n)
+                if c in BOUNDARY_APIS:
+                    boundary.append(n)
+            if n.get('k') == 'Lit' and prog.ty(n) == 'u8' and n.get('v') in (63, 42, '63', '42'):
+                byte_lits.append(n)
+        ptys = [prog.types[p['ty']] for p in (body.get('params') or [])]
+        byte_params = [t for t in ptys if '[u8]' in t or 'Vec<u8>' in t]
+        r5.instance('%s: byte views %d, byte wildcard literals %d, byte-slice parameters %d, boundary computations %d'
+                    % (name, len(byte_views), len(byte_lits), len(byte_params), len(boundary)))
+        if (byte_views or byte_lits or byte_params) and not (boundary and not byte_params and not byte_lits):
+            where = (byte_views + byte_lits)[0] if (byte_views + byte_lits) else None
+            r5.violation('%s|byte-unit' % name, '%s walks the mask/text byte-wise without a character-boundary computation: "?" then matches '
+                         'one byte, i.e. a part of a multi-byte character' % name, loc=prog.loc(where) if where else fn)
 
     # ---------------------------------------------------------------- R14.3 normalisation
     r3 = cx.rule('R14.3', 'normalisation before store / announce / compare', floor=10, kind='provenance')
